@@ -35,6 +35,8 @@ def run(ctx, rep):
         check_rec_vm(crate, rep, cfg, "R-REC.vm")
         check_rec_value(crate, rep, cfg)
         check_ref(crate, rep, cfg)
+        import rpanic
+        rpanic.check(crate, rep, "R-PANIC.render", ("vm/interpreter.rs", "vm/state.rs", "vm/for_loop.rs", "vm/stack.rs", "value/mod.rs", "value/number.rs", "value/key.rs"), cfg, 40)
 
 
 def check_rec_vm(crate, rep, cfg, rule):
